@@ -328,7 +328,9 @@ func (c *clientV2) Stats(topicName string) ClientStats {
 			Topic: topic,
 			Count: count,
 		})
-		break
+		if len(topicName) > 0 {
+			break
+		}
 	}
 	c.metaLock.RUnlock()
 	stats := ClientV2Stats{
